@@ -1,4 +1,5 @@
 import Sozu.Common.KMap
+import Sozu.Generated.Consts
 /-
 Model of `sozu_command_lib::state::ConfigState` (command/src/state.rs):
 `dispatch` for the 28 mutating verbs, `generate_requests`, `diff`, `diff_map`,
@@ -329,16 +330,17 @@ def certSet (m : List (Nat × Cert)) (fp : Nat) (c : Cert) : List (Nat × Cert) 
 
 /-- minimum accepted value of knob `i` (`validate_h2_flood_knobs_http(s)`): knobs
     6 (initial_connection_window), 15 (stream_idle_timeout), 16 (graceful_shutdown_deadline)
-    are free, 8 (stream_shrink_ratio) needs ≥ 2, all others ≥ 1. -/
-def knobMin (i : Nat) : Nat :=
-  if i = 6 ∨ i = 15 ∨ i = 16 then 0 else if i = 8 then 2 else 1
+    are free, 8 (stream_shrink_ratio) needs ≥ `shrinkMin`, every other knob is rejected when it is
+    `Consts.stateKnobZeroRejected` (= 0). The two literals are re-extracted from the source. -/
+def knobMin (shrinkMin : Nat) (i : Nat) : Nat :=
+  if i = 6 ∨ i = 15 ∨ i = 16 then 0 else if i = 8 then shrinkMin else Consts.stateKnobZeroRejected + 1
 
-def knobsValidFrom : Nat → List (Option Nat) → Bool
+def knobsValidFrom (shrinkMin : Nat) : Nat → List (Option Nat) → Bool
   | _, [] => true
-  | i, none :: t => knobsValidFrom (i + 1) t
-  | i, some v :: t => decide (knobMin i ≤ v) && knobsValidFrom (i + 1) t
+  | i, none :: t => knobsValidFrom shrinkMin (i + 1) t
+  | i, some v :: t => decide (knobMin shrinkMin i ≤ v) && knobsValidFrom shrinkMin (i + 1) t
 
-def knobsValid (ks : List (Option Nat)) : Bool := knobsValidFrom 0 ks
+def knobsValid (shrinkMin : Nat) (ks : List (Option Nat)) : Bool := knobsValidFrom shrinkMin 0 ks
 
 /-- `validate_alpn_protocols` -/
 def alpnValid (vs : List Nat) : Bool := vs.all (fun v => decide (v ≤ 1))
@@ -591,12 +593,12 @@ def loc (env : Env) (c : Cmd) (v : Option Val) : Option Val × Bool :=
       (some (.backends l'), l'.length ≠ l.length)
     | _ => (v, false)
   | .updHttpL p =>
-    if !knobsValid p.knobs then (v, false) else
+    if !knobsValid Consts.stateShrinkRatioMinHttp p.knobs then (v, false) else
     match v with
     | some (.hl l) => let r := applyHttpPatch p l; (some (.hl r.1), r.2)
     | _ => (v, false)
   | .updHttpsL p =>
-    if !knobsValid p.knobs then (v, false) else
+    if !knobsValid Consts.stateShrinkRatioMinHttps p.knobs then (v, false) else
     match v with
     | some (.hl l) => let r := applyHttpsPatch p l; (some (.hl r.1), r.2)
     | _ => (v, false)
